@@ -38,7 +38,7 @@ func inputTokens(in []input) []int32 {
 	out := make([]int32, len(in))
 	for i := range in {
 		if in[i].embed != nil {
-			out[i] = -1
+			out[i] = int32(llama.EmbedID(in[i].embed))
 		} else {
 			out[i] = int32(in[i].token)
 		}
@@ -291,6 +291,9 @@ func (srv *simServer) afterDecode(c *llama.Context, rows []llama.DecodeRow) {
 	}
 	if seqs > 1 {
 		verifsim.Probe("multi_seq_batch")
+	}
+	if len(rows) > 0 && rows[0].Embed {
+		verifsim.Probe("image_embedding_batch")
 	}
 	srv.checkRows(rows)
 	for i := range rows {
